@@ -58,7 +58,8 @@ def mk_case(rng, names, edges, remove):
         if not res and k == 0:
             res = [[names[0], "additive", value(rng)]]
         nodes.append({"name": nm, "resources": res})
-    return {"dict": dl, "remove": remove, "nodes": nodes, "names": list(names)}
+    # half of the cases ask for the rewrite as a post-processing stage of compile_routine instead of calling it directly
+    return {"dict": dl, "remove": remove, "nodes": nodes, "names": list(names), "via_stage": rng.random() < 0.5}
 
 
 def all_graphs(names):
